@@ -1,13 +1,856 @@
-(* C01 -- proofs about the model in HashModel.v *)
+(* C01 -- proofs about the model in HashModel.v: table level (one generation) *)
 From Coq Require Import ZArith List Lia Bool Permutation.
-From C01 Require Import HashModel.
+From C01 Require Import HashModel ListAux.
 Import ListNotations.
 Local Open Scope Z_scope.
 
-Lemma bfind_some_in : forall k l i pos v, bfind k l i = Some (pos, v) -> In (k, v) l.
-Proof.
-  induction l as [|[k' v'] r IH]; simpl; intros i pos v H; [discriminate|].
-  destruct (Z.eqb_spec k k').
-  - inversion H; subst. now left.
-  - right. eapply IH; eauto.
-Qed.
+Arguments items {B}. Arguments wasFull {B}. Arguments bound {B}. Arguments mkB {B}.
+Arguments tlog {B}. Arguments tbs {B}. Arguments mkT {B}.
+Arguments gens {B}. Arguments count {B}. Arguments capacity {B}. Arguments mkH {B}.
+
+Ltac csplit := repeat match goal with |- _ /\ _ => split end.
+
+Section TableProofs.
+  Variable B : Type.
+  Variable b0 : B.
+  Variable decode : Z -> B -> Z.
+  Variable upd_bound : B -> Z -> B.
+  Variable h : Z -> Z.
+  Variable cap : Z.
+  Variable wf0 : bool.
+  Variable wfThr : Z.
+  Variable start : Z -> Z -> Z.
+  Variable next : Z -> Z -> Z -> Z.
+  Variable logStart : Z.
+  Variable calcCapacity : Z -> Z.
+  Variable shift : Z -> Z.
+  Variable maxLog : Z.
+  Variable Binv : B -> Prop.
+
+  Hypothesis cap_pos : 1 <= cap.
+  Hypothesis logStart_nonneg : 0 <= logStart.
+  Hypothesis shift_nonneg : forall bc, 0 <= shift bc.
+  Hypothesis thr_le : wfThr <= cap.
+  Hypothesis start_range : forall hc log, 0 <= log <= maxLog -> 0 <= start hc (2 ^ log) < 2 ^ log.
+  Hypothesis next_range : forall i log p, 0 <= log <= maxLog -> 0 <= i < 2 ^ log -> 0 <= next i (2 ^ log) p < 2 ^ log.
+  Hypothesis Binv0 : Binv b0.
+  Hypothesis Binv_upd : forall b p, Binv b -> 0 <= p -> Binv (upd_bound b p).
+  Hypothesis bound_ge : forall log b p, 0 <= log <= maxLog -> Binv b -> 0 <= p < 2 ^ log ->
+      p <= decode log (upd_bound b p) /\
+      (forall q, 0 <= q < 2 ^ log -> q <= decode log b -> q <= decode log (upd_bound b p)).
+
+  Notation bucket := (bucket B).
+  Notation table := (table B).
+  Notation emptyB := (emptyB B b0 wf0).
+  Notation getb := (getb B b0 wf0).
+  Notation setb := (setb B).
+  Notation isFull := (isFull B cap).
+  Notation blen := (blen B).
+  Notation bcount := (bcount B).
+  Notation tfind := (tfind B b0 decode h wf0 start next).
+  Notation probe_loop := (probe_loop B b0 wf0 next).
+  Notation add_loop := (add_loop B b0 cap wf0 next).
+  Notation tadd := (tadd B b0 upd_bound h cap wf0 wfThr start next).
+  Notation tremove := (tremove B b0 wf0).
+  Notation tsetval := (tsetval B b0 wf0).
+  Notation newTable := (newTable B b0 wf0).
+  Notation hset := (hset B).
+  Notation gfind := (gfind B b0 decode h wf0 start next).
+  Notation hfind := (hfind B b0 decode h wf0 start next).
+  Notation reloc_items := (reloc_items B b0 upd_bound h cap wf0 wfThr start next).
+  Notation reloc_buckets := (reloc_buckets B b0 upd_bound h cap wf0 wfThr start next).
+  Notation reloc_gens := (reloc_gens B b0 upd_bound h cap wf0 wfThr start next).
+  Notation relocate := (relocate B b0 upd_bound h cap wf0 wfThr start next).
+  Notation add_all := (add_all B b0 upd_bound h cap wf0 wfThr start next).
+  Notation newLog := (newLog B logStart shift).
+  Notation hadd := (hadd B b0 upd_bound h cap wf0 wfThr start next logStart calcCapacity shift maxLog).
+  Notation hreserve := (hreserve B b0 upd_bound h cap wf0 wfThr start next logStart calcCapacity shift maxLog).
+  Notation hcopy := (hcopy B b0 upd_bound h cap wf0 wfThr start next logStart calcCapacity maxLog).
+  Notation hclear := (hclear B b0 wf0).
+  Notation step := (step B b0 decode upd_bound h cap wf0 wfThr start next logStart calcCapacity shift maxLog).
+  Notation run := (run B b0 decode upd_bound h cap wf0 wfThr start next logStart calcCapacity shift maxLog).
+
+  (* the probe path of a hash code: path 0 = GetStartBucketIndex, path (p+1) = GetNextBucketIndex (path p) _ (p+1) *)
+  Fixpoint path (hc bc : Z) (p : nat) : Z :=
+    match p with O => start hc bc | S p' => next (path hc bc p') bc (Z.of_nat p) end.
+
+  Definition tall (t : table) : list item := flat_map (@items B) (tbs t).
+
+  Record TInv (t : table) : Prop := {
+    ti_log : 0 <= tlog t <= maxLog;
+    ti_len : length (tbs t) = Z.to_nat (bcount t);
+    ti_b : forall i, 0 <= i < bcount t ->
+           blen (getb t i) <= cap /\ (isFull (getb t i) = true -> wasFull (getb t i) = true) /\ Binv (bound (getb t i));
+    ti_path : forall i k v, 0 <= i < bcount t -> In (k, v) (items (getb t i)) ->
+        exists p : nat, path (h k) (bcount t) p = i /\ Z.of_nat p < bcount t /\
+          Z.of_nat p <= decode (tlog t) (bound (getb t (start (h k) (bcount t)))) /\
+          forall q, (q < p)%nat -> wasFull (getb t (path (h k) (bcount t) q)) = true
+  }.
+
+  Lemma bcount_pos t : 0 <= tlog t -> 0 < bcount t.
+  Proof. intros. unfold bcount. apply Z.pow_pos_nonneg; lia. Qed.
+
+  Lemma path_range t hc p : 0 <= tlog t <= maxLog -> 0 <= path hc (bcount t) p < bcount t.
+  Proof.
+    intros Hl. induction p; simpl.
+    - apply start_range; auto.
+    - apply next_range; auto.
+  Qed.
+
+  Lemma idx_nat t i : TInv t -> 0 <= i < bcount t -> (Z.to_nat i < length (tbs t))%nat.
+  Proof. intros I Hi. rewrite (ti_len _ I). lia. Qed.
+
+  Lemma getb_setb_same t i b : (Z.to_nat i < length (tbs t))%nat -> getb (setb t i b) i = b.
+  Proof. intros. unfold getb, setb; simpl. apply nth_upd_nth_same; auto. Qed.
+
+  Lemma getb_setb_other t i j b : 0 <= i -> 0 <= j -> i <> j -> getb (setb t i b) j = getb t j.
+  Proof. intros. unfold getb, setb; simpl. apply nth_upd_nth_other. lia. Qed.
+
+  Lemma bcount_setb t i b : bcount (setb t i b) = bcount t.
+  Proof. reflexivity. Qed.
+
+  Lemma in_tall t kv : TInv t -> (In kv (tall t) <-> exists i, 0 <= i < bcount t /\ In kv (items (getb t i))).
+  Proof.
+    intros I. unfold tall. rewrite (in_flat_map_nth (@items B) emptyB). split.
+    - intros [n [Hn Hy]]. exists (Z.of_nat n). rewrite (ti_len _ I) in Hn. split; [lia|].
+      unfold getb. rewrite Nat2Z.id. exact Hy.
+    - intros [i [Hi Hy]]. exists (Z.to_nat i). split; [apply idx_nat; auto|exact Hy].
+  Qed.
+
+  (* ---------- find ---------- *)
+  Lemma probe_loop_S n t k probe idx b :
+    probe_loop (S n) t k probe idx b =
+      if wasFull b then
+        match bfind k (items (getb t (next idx (bcount t) probe))) 0 with
+        | Some (pos, v) => Some (next idx (bcount t) probe, pos, v)
+        | None => probe_loop n t k (probe + 1) (next idx (bcount t) probe) (getb t (next idx (bcount t) probe))
+        end
+      else None.
+  Proof. reflexivity. Qed.
+
+  Lemma probe_loop_sound t k : 0 <= tlog t <= maxLog -> forall n probe idx b i pos v, 0 <= idx < bcount t ->
+    probe_loop n t k probe idx b = Some (i, pos, v) ->
+    0 <= i < bcount t /\ nth_error (items (getb t i)) pos = Some (k, v).
+  Proof.
+    intros Hl. induction n; intros probe idx b i pos v Hi H; [discriminate|].
+    rewrite probe_loop_S in H. destruct (wasFull b); [|discriminate].
+    assert (Hr : 0 <= next idx (bcount t) probe < bcount t) by (apply next_range; auto).
+    destruct (bfind k (items (getb t (next idx (bcount t) probe))) 0) as [[pos' v']|] eqn:E.
+    - inversion H; subst. split; auto. apply bfind_spec0; auto.
+    - eapply IHn; eauto.
+  Qed.
+
+  Lemma tfind_sound t k i pos v : 0 <= tlog t <= maxLog -> tfind t k = Some (i, pos, v) ->
+    0 <= i < bcount t /\ nth_error (items (getb t i)) pos = Some (k, v).
+  Proof.
+    intros Hl. unfold HashModel.tfind.
+    assert (Hr : 0 <= start (h k) (bcount t) < bcount t) by (apply start_range; auto).
+    destruct (bfind k (items (getb t (start (h k) (bcount t)))) 0) as [[pos' v']|] eqn:E; intros H.
+    - inversion H; subst. split; auto. apply bfind_spec0; auto.
+    - eapply probe_loop_sound; eauto.
+  Qed.
+
+  Lemma tfind_in t k i pos v : TInv t -> tfind t k = Some (i, pos, v) -> In (k, v) (tall t).
+  Proof.
+    intros I H. apply tfind_sound in H; [|apply I]. destruct H as [Hi Hn].
+    apply in_tall; auto. exists i. split; auto. eapply nth_error_In; eauto.
+  Qed.
+
+  Lemma probe_loop_complete t k v : TInv t -> NoDup (map fst (tall t)) ->
+    forall p, In (k, v) (items (getb t (path (h k) (bcount t) p))) ->
+    (forall q, (q < p)%nat -> wasFull (getb t (path (h k) (bcount t) q)) = true) ->
+    forall n q, (q < p)%nat -> (p - q <= n)%nat ->
+    exists i pos, probe_loop n t k (Z.of_nat (S q)) (path (h k) (bcount t) q) (getb t (path (h k) (bcount t) q)) = Some (i, pos, v).
+  Proof.
+    intros I ND p Hin Hwf. induction n; intros q Hq Hn; [lia|].
+    rewrite probe_loop_S. rewrite (Hwf q Hq).
+    change (next (path (h k) (bcount t) q) (bcount t) (Z.of_nat (S q))) with (path (h k) (bcount t) (S q)).
+    destruct (bfind k (items (getb t (path (h k) (bcount t) (S q)))) 0) as [[pos' v']|] eqn:E.
+    - exists (path (h k) (bcount t) (S q)), pos'. repeat f_equal.
+      apply bfind_spec0 in E. apply nth_error_In in E.
+      eapply NoDup_keys_val; [exact ND| |].
+      + apply in_tall; auto. eexists; split; [|exact E]. apply path_range, I.
+      + apply in_tall; auto. eexists; split; [|exact Hin]. apply path_range, I.
+    - assert (S q <> p). { intro; subst p. apply bfind_none in E. apply E. apply in_keys. eauto. }
+      replace (Z.of_nat (S q) + 1) with (Z.of_nat (S (S q))) by lia.
+      apply IHn; lia.
+  Qed.
+
+  Lemma tfind_complete t k v : TInv t -> NoDup (map fst (tall t)) -> In (k, v) (tall t) ->
+    exists i pos, tfind t k = Some (i, pos, v).
+  Proof.
+    intros I ND Hin. apply in_tall in Hin; auto. destruct Hin as [i [Hi Hin]].
+    destruct (ti_path _ I i k v Hi Hin) as [p [Hp [Hpb [Hd Hwf]]]].
+    unfold HashModel.tfind. subst i.
+    destruct (bfind k (items (getb t (start (h k) (bcount t)))) 0) as [[pos' v']|] eqn:E.
+    - exists (start (h k) (bcount t)), pos'. repeat f_equal.
+      apply bfind_spec0 in E. apply nth_error_In in E.
+      eapply NoDup_keys_val; [exact ND| |].
+      + apply in_tall; auto. eexists; split; [|exact E]. apply (path_range t (h k) 0), I.
+      + apply in_tall; auto. eexists; split; [|exact Hin]. apply path_range, I.
+    - assert (p <> 0%nat). { intro; subst p. apply bfind_none in E. apply E. apply in_keys. eauto. }
+      apply (probe_loop_complete t k v I ND p Hin Hwf _ 0%nat); lia.
+  Qed.
+
+  Lemma tfind_none t k : TInv t -> NoDup (map fst (tall t)) -> tfind t k = None -> ~ In k (map fst (tall t)).
+  Proof.
+    intros I ND H Hin. apply in_keys in Hin. destruct Hin as [v Hin].
+    destruct (tfind_complete t k v I ND Hin) as [i [pos E]]. congruence.
+  Qed.
+
+  (* ---------- add (pvAddNogrow) ---------- *)
+  Lemma add_loop_eq n t probe idx :
+    add_loop n t probe idx =
+      if isFull (getb t idx) then
+        match n with
+        | O => None
+        | S n' => add_loop n' t (probe + 1) (next idx (bcount t) (probe + 1))
+        end
+      else Some (idx, probe).
+  Proof. destruct n; reflexivity. Qed.
+
+  Lemma add_loop_spec t hc : forall n q idx probe,
+    add_loop n t (Z.of_nat q) (path hc (bcount t) q) = Some (idx, probe) ->
+    exists p, probe = Z.of_nat p /\ idx = path hc (bcount t) p /\ (q <= p <= q + n)%nat /\
+      isFull (getb t idx) = false /\
+      forall q', (q <= q' < p)%nat -> isFull (getb t (path hc (bcount t) q')) = true.
+  Proof.
+    induction n; intros q idx probe H; rewrite add_loop_eq in H;
+      destruct (isFull (getb t (path hc (bcount t) q))) eqn:F; try discriminate.
+    - inversion H; subst. exists q. repeat split; auto; try lia; try (intros; lia).
+    - replace (Z.of_nat q + 1) with (Z.of_nat (S q)) in H by lia.
+      change (next (path hc (bcount t) q) (bcount t) (Z.of_nat (S q))) with (path hc (bcount t) (S q)) in H.
+      destruct (IHn _ _ _ H) as [p [E1 [E2 [E3 [E4 E5]]]]].
+      exists p. repeat split; auto; try lia. intros q' Hq'.
+      destruct (Nat.eq_dec q' q); [subst; auto|apply E5; lia].
+    - inversion H; subst. exists q. repeat split; auto; try lia; try (intros; lia).
+  Qed.
+
+  (* shape of the table after a successful add *)
+  Lemma tadd_shape t kv t' : TInv t -> tadd t kv = Some t' ->
+    exists p : nat,
+      let i0 := start (h (fst kv)) (bcount t) in
+      let idx := path (h (fst kv)) (bcount t) p in
+      Z.of_nat p < bcount t /\ isFull (getb t idx) = false /\
+      (forall q, (q < p)%nat -> isFull (getb t (path (h (fst kv)) (bcount t) q)) = true) /\
+      tlog t' = tlog t /\ length (tbs t') = length (tbs t) /\
+      (forall j, 0 <= j < bcount t ->
+         items (getb t' j) = (if Z.eqb j idx then items (getb t j) ++ [kv] else items (getb t j)) /\
+         wasFull (getb t' j) = (if Z.eqb j idx then wasFull (getb t j) || (wfThr <=? blen (getb t j) + 1) else wasFull (getb t j)) /\
+         bound (getb t' j) = (if Z.eqb j i0 then upd_bound (bound (getb t j)) (Z.of_nat p) else bound (getb t j))) /\
+      Permutation (tall t') (kv :: tall t).
+  Proof.
+    intros I. unfold HashModel.tadd.
+    destruct (add_loop (Z.to_nat (bcount t - 1)) t 0 (start (h (fst kv)) (bcount t))) as [[idx probe]|] eqn:E; [|discriminate].
+    intros H. inversion H; subst t'; clear H.
+    pose proof (ti_log _ I) as Hl. pose proof (bcount_pos t (proj1 Hl)) as Hbc.
+    destruct (add_loop_spec t (h (fst kv)) _ 0%nat idx probe E) as [p [E1 [E2 [E3 [E4 E5]]]]].
+    subst probe. exists p. cbv zeta.
+    assert (Hidx : 0 <= idx < bcount t) by (subst idx; apply path_range; auto).
+    assert (Hi0 : 0 <= start (h (fst kv)) (bcount t) < bcount t) by (apply start_range; auto).
+    assert (Ln : (Z.to_nat idx < length (tbs t))%nat) by (apply idx_nat; auto).
+    assert (Ln0 : (Z.to_nat (start (h (fst kv)) (bcount t)) < length (tbs t))%nat) by (apply idx_nat; auto).
+    rewrite <- E2.
+    set (b1 := mkB (items (getb t idx) ++ [kv]) (wasFull (getb t idx) || (wfThr <=? Z.of_nat (length (items (getb t idx) ++ [kv])))) (bound (getb t idx))).
+    set (t1 := setb t idx b1).
+    set (i0 := start (h (fst kv)) (bcount t)) in *.
+    assert (Ln1 : (Z.to_nat i0 < length (tbs t1))%nat) by (unfold t1, HashModel.setb; simpl; rewrite upd_nth_length; auto).
+    split; [lia|]. split; [exact E4|]. split; [intros; apply E5; lia|].
+    split; [reflexivity|]. split; [unfold HashModel.setb; simpl; rewrite !upd_nth_length; reflexivity|].
+    split.
+    - intros j Hj.
+      assert (Hlen : Z.of_nat (length (items (getb t idx) ++ [kv])) = blen (getb t idx) + 1).
+      { unfold HashModel.blen. rewrite app_length. simpl. lia. }
+      destruct (Z.eqb_spec j i0) as [Ej|Ej].
+      + subst j. rewrite getb_setb_same by auto. simpl.
+        destruct (Z.eqb_spec i0 idx) as [Ei|Ei].
+        * rewrite Ei. unfold t1. rewrite getb_setb_same by auto. simpl. rewrite Hlen. auto.
+        * unfold t1. rewrite getb_setb_other by lia. auto.
+      + rewrite getb_setb_other by lia.
+        destruct (Z.eqb_spec j idx) as [Ei|Ei].
+        * subst j. unfold t1. rewrite getb_setb_same by auto. simpl. rewrite Hlen. auto.
+        * unfold t1. rewrite getb_setb_other by lia. auto.
+    - unfold tall. unfold HashModel.setb at 1. simpl tbs.
+      apply Permutation_trans with (flat_map (@items B) (tbs t1)).
+      + apply (flat_map_upd_nth_perm (@items B) _ _ emptyB _ []); [exact Ln1|simpl; reflexivity].
+      + unfold t1, HashModel.setb. simpl tbs.
+        apply (flat_map_upd_nth_perm (@items B) _ _ emptyB _ [kv]); [exact Ln|].
+        simpl. fold (getb t idx). symmetry. apply Permutation_cons_append.
+  Qed.
+
+  Lemma tadd_inv t kv t' : TInv t -> ~ In (fst kv) (map fst (tall t)) -> tadd t kv = Some t' ->
+    TInv t' /\ tlog t' = tlog t /\ Permutation (tall t') (kv :: tall t).
+  Proof.
+    intros I Hnew H. destruct (tadd_shape t kv t' I H) as [p [Hp [Hnf [Hfull [Hlog [Hlen [Hg HP]]]]]]].
+    cbv zeta in *.
+    set (i0 := start (h (fst kv)) (bcount t)) in *. set (idx := path (h (fst kv)) (bcount t) p) in *.
+    pose proof (ti_log _ I) as Hl.
+    assert (Hbc : bcount t' = bcount t) by (unfold HashModel.bcount; rewrite Hlog; reflexivity).
+    assert (Hidx : 0 <= idx < bcount t) by (apply path_range; auto).
+    assert (Hi0 : 0 <= i0 < bcount t) by (apply start_range; auto).
+    split; [|split; auto].
+    constructor.
+    - rewrite Hlog; auto.
+    - rewrite Hlen, Hbc. apply I.
+    - intros j Hj. rewrite Hbc in Hj. destruct (Hg j Hj) as [Hi [Hw Hb]].
+      destruct (ti_b _ I j Hj) as [Hc [Hfw HB]].
+      unfold HashModel.blen, HashModel.isFull, HashModel.blen in *. rewrite Hi, Hw, Hb.
+      destruct (Z.eqb_spec j idx) as [Ej|Ej].
+      + subst j. rewrite app_length; simpl.
+        apply Z.leb_gt in Hnf.
+        split; [lia|]. split.
+        * intros Hf. apply Z.leb_le in Hf. apply orb_true_iff. right. apply Z.leb_le. lia.
+        * destruct (Z.eqb_spec idx i0); auto. apply Binv_upd; auto. lia.
+      + split; auto. split; auto. destruct (Z.eqb_spec j i0); auto. apply Binv_upd; auto. lia.
+    - intros j k v Hj Hin. rewrite Hbc in *. destruct (Hg j Hj) as [Hi _]. rewrite Hi in Hin.
+      assert (Hwf_mono : forall q, 0 <= q < bcount t -> wasFull (getb t q) = true -> wasFull (getb t' q) = true).
+      { intros q Hq Hw. destruct (Hg q Hq) as [_ [Hw' _]]. rewrite Hw'. destruct (q =? idx); auto. rewrite Hw. reflexivity. }
+      assert (Hold : In (k, v) (items (getb t j)) ->
+        exists p0 : nat, path (h k) (bcount t) p0 = j /\ Z.of_nat p0 < bcount t /\
+          Z.of_nat p0 <= decode (tlog t') (bound (getb t' (start (h k) (bcount t)))) /\
+          (forall q : nat, (q < p0)%nat -> wasFull (getb t' (path (h k) (bcount t) q)) = true)).
+      { intros Hin0. destruct (ti_path _ I j k v Hj Hin0) as [p0 [P1 [P2 [P3 P4]]]].
+        exists p0. split; auto. split; auto. split.
+        - rewrite Hlog. assert (Hs : 0 <= start (h k) (bcount t) < bcount t) by (apply start_range; auto).
+          destruct (Hg _ Hs) as [_ [_ Hb]]. rewrite Hb.
+          destruct (Z.eqb_spec (start (h k) (bcount t)) i0); auto.
+          destruct (ti_b _ I _ Hs) as [_ [_ HB]].
+          destruct (bound_ge (tlog t) (bound (getb t (start (h k) (bcount t)))) (Z.of_nat p) Hl HB) as [G1 G2]; [unfold HashModel.bcount in Hp; lia|].
+          apply G2; [unfold HashModel.bcount in P2; lia | exact P3].
+        - intros q Hq. apply Hwf_mono; [apply path_range; auto|apply P4; auto]. }
+      destruct (Z.eqb_spec j idx) as [Ej|Ej]; [|auto].
+      apply in_app_or in Hin. destruct Hin as [Hin|Hin]; [auto|].
+      destruct Hin as [Hin|[]]. subst kv. simpl in *.
+      exists p. split; auto. split; auto. split.
+      + rewrite Hlog. destruct (Hg _ Hi0) as [_ [_ Hb]]. fold i0. rewrite Hb. rewrite Z.eqb_refl.
+        destruct (ti_b _ I _ Hi0) as [_ [_ HB]].
+        destruct (bound_ge (tlog t) (bound (getb t i0)) (Z.of_nat p) Hl HB) as [G1 G2]; [unfold HashModel.bcount in Hp; lia|].
+        exact G1.
+      + intros q Hq. apply Hwf_mono; [apply path_range; auto|].
+        apply (ti_b _ I); [apply path_range; auto|]. apply Hfull; auto.
+  Qed.
+
+  (* ---------- shrinking a table (Remove, relocation out of an old generation, value assignment) ---------- *)
+  Definition shrinks (t t' : table) : Prop :=
+    tlog t' = tlog t /\ length (tbs t') = length (tbs t) /\
+    forall j, 0 <= j < bcount t ->
+      incl (map fst (items (getb t' j))) (map fst (items (getb t j))) /\
+      (length (items (getb t' j)) <= length (items (getb t j)))%nat /\
+      wasFull (getb t' j) = wasFull (getb t j) /\ bound (getb t' j) = bound (getb t j).
+
+  Lemma shrinks_refl t : shrinks t t.
+  Proof. repeat split; auto. apply incl_refl. Qed.
+
+  Lemma shrinks_trans t1 t2 t3 : shrinks t1 t2 -> shrinks t2 t3 -> shrinks t1 t3.
+  Proof.
+    intros [A1 [A2 A3]] [B1 [B2 B3]]. split; [congruence|]. split; [congruence|].
+    intros j Hj. destruct (A3 j Hj) as [a1 [a2 [a3 a4]]].
+    assert (Hj2 : 0 <= j < bcount t2) by (unfold HashModel.bcount in *; rewrite A1; auto).
+    destruct (B3 j Hj2) as [c1 [c2 [c3 c4]]].
+    split; [eapply incl_tran; eauto|]. split; [lia|]. split; congruence.
+  Qed.
+
+  Lemma shrink_inv t t' : TInv t -> shrinks t t' -> TInv t'.
+  Proof.
+    intros I [Hlog [Hlen Hs]].
+    assert (Hbc : bcount t' = bcount t) by (unfold HashModel.bcount; rewrite Hlog; reflexivity).
+    constructor.
+    - rewrite Hlog. apply I.
+    - rewrite Hlen, Hbc. apply I.
+    - intros j Hj. rewrite Hbc in Hj. destruct (Hs j Hj) as [S1 [S2 [S3 S4]]].
+      destruct (ti_b _ I j Hj) as [Hc [Hfw HB]].
+      unfold HashModel.blen, HashModel.isFull, HashModel.blen in *. rewrite S3, S4.
+      split; [lia|]. split; auto. intros Hf. apply Hfw. apply Z.leb_le in Hf. apply Z.leb_le. lia.
+    - intros j k v Hj Hin. rewrite Hbc in *. destruct (Hs j Hj) as [S1 _].
+      assert (Hk : In k (map fst (items (getb t j)))). { apply S1. apply in_keys. eauto. }
+      apply in_keys in Hk. destruct Hk as [v0 Hin0].
+      destruct (ti_path _ I j k v0 Hj Hin0) as [p0 [P1 [P2 [P3 P4]]]].
+      exists p0. split; auto. split; auto. split.
+      + rewrite Hlog. assert (Hst : 0 <= start (h k) (bcount t) < bcount t) by (apply start_range; apply I).
+        destruct (Hs _ Hst) as [_ [_ [_ S4]]]. rewrite S4. exact P3.
+      + intros q Hq. assert (Hpq : 0 <= path (h k) (bcount t) q < bcount t) by (apply path_range; apply I).
+        destruct (Hs _ Hpq) as [_ [_ [S3 _]]]. rewrite S3. auto.
+  Qed.
+
+  Lemma setb_shrinks t i b' : TInv t -> 0 <= i < bcount t ->
+    incl (map fst (items b')) (map fst (items (getb t i))) ->
+    (length (items b') <= length (items (getb t i)))%nat ->
+    wasFull b' = wasFull (getb t i) -> bound b' = bound (getb t i) ->
+    shrinks t (setb t i b').
+  Proof.
+    intros I Hi H1 H2 H3 H4. split; [reflexivity|]. split; [unfold HashModel.setb; simpl; apply upd_nth_length|].
+    intros j Hj. destruct (Z.eq_dec j i).
+    - subst j. rewrite getb_setb_same by (apply idx_nat; auto). auto.
+    - rewrite getb_setb_other by lia. repeat split; auto. apply incl_refl.
+  Qed.
+
+  Lemma tall_setb_perm t i b' extra : TInv t -> 0 <= i < bcount t ->
+    Permutation (extra ++ items b') (items (getb t i)) ->
+    Permutation (extra ++ tall (setb t i b')) (tall t).
+  Proof.
+    intros I Hi HP. unfold tall, HashModel.setb. simpl tbs.
+    apply (flat_map_upd_nth_perm' (@items B) _ _ emptyB); [apply idx_nat; auto|exact HP].
+  Qed.
+
+  Lemma tremove_spec t i pos x : TInv t -> 0 <= i < bcount t -> nth_error (items (getb t i)) pos = Some x ->
+    shrinks t (tremove t i pos) /\ Permutation (x :: tall (tremove t i pos)) (tall t).
+  Proof.
+    intros I Hi Hn. pose proof (bremove_perm _ _ _ Hn) as HP. unfold HashModel.tremove. split.
+    - apply setb_shrinks; auto; simpl.
+      + intros y Hy. apply (Permutation_in y (Permutation_map fst HP)). simpl. right. exact Hy.
+      + apply Permutation_length in HP. simpl in HP. lia.
+    - apply (tall_setb_perm t i _ [x]); auto.
+  Qed.
+
+  Lemma bsetval_spec pos v (l : list item) k v0 : nth_error l pos = Some (k, v0) ->
+    exists l1 l2, l = l1 ++ (k, v0) :: l2 /\ bsetval pos v l = l1 ++ (k, v) :: l2.
+  Proof.
+    intros H. unfold bsetval. rewrite H.
+    destruct (nth_error_nth' _ (0, 0) _ _ H) as [E Hlt].
+    exists (firstn pos l), (skipn (S pos) l). split.
+    - rewrite <- E. apply nth_split'; auto.
+    - apply upd_nth_split; auto.
+  Qed.
+
+  Lemma tsetval_spec t i pos k v0 v : TInv t -> 0 <= i < bcount t -> nth_error (items (getb t i)) pos = Some (k, v0) ->
+    shrinks t (tsetval t i pos v) /\
+    exists rest, Permutation (tall t) ((k, v0) :: rest) /\ Permutation (tall (tsetval t i pos v)) ((k, v) :: rest).
+  Proof.
+    intros I Hi Hn. destruct (bsetval_spec pos v _ k v0 Hn) as [l1 [l2 [E1 E2]]].
+    unfold HashModel.tsetval. split.
+    - apply setb_shrinks; auto; simpl; rewrite E2, E1.
+      + rewrite !map_app. simpl. apply incl_refl.
+      + rewrite !app_length. simpl. lia.
+    - assert (Hn' : (Z.to_nat i < length (tbs t))%nat) by (apply idx_nat; auto).
+      unfold tall, HashModel.setb. simpl tbs.
+      rewrite (flat_map_upd_nth_eq (@items B) _ _ _ Hn'). rewrite (flat_map_split_nth (@items B) _ emptyB _ Hn').
+      fold (getb t i). simpl items. rewrite E2, E1.
+      exists (flat_map (@items B) (firstn (Z.to_nat i) (tbs t)) ++ (l1 ++ l2) ++ flat_map (@items B) (skipn (S (Z.to_nat i)) (tbs t))).
+      split.
+      + rewrite <- !app_assoc. rewrite app_comm_cons. apply Permutation_sym.
+        apply Permutation_trans with (flat_map (@items B) (firstn (Z.to_nat i) (tbs t)) ++ (k, v0) :: l1 ++ l2 ++ flat_map (@items B) (skipn (S (Z.to_nat i)) (tbs t))).
+        * apply Permutation_middle.
+        * apply Permutation_app_head. rewrite app_comm_cons. rewrite !app_assoc. apply Permutation_app_tail.
+          apply Permutation_middle.
+      + rewrite <- !app_assoc. apply Permutation_sym.
+        apply Permutation_trans with (flat_map (@items B) (firstn (Z.to_nat i) (tbs t)) ++ (k, v) :: l1 ++ l2 ++ flat_map (@items B) (skipn (S (Z.to_nat i)) (tbs t))).
+        * apply Permutation_middle.
+        * apply Permutation_app_head. rewrite app_comm_cons. rewrite !app_assoc. apply Permutation_app_tail.
+          apply Permutation_middle.
+  Qed.
+
+  (* ---------- fresh / cleared tables ---------- *)
+  Lemma flat_map_repeat_nil {A C} (f : A -> list C) a n : f a = [] -> flat_map f (repeat a n) = [].
+  Proof. intros H. induction n; simpl; auto. rewrite H, IHn. reflexivity. Qed.
+
+  Lemma tall_newTable log : tall (newTable log) = [].
+  Proof. unfold tall, HashModel.newTable. simpl. apply flat_map_repeat_nil. reflexivity. Qed.
+
+  Lemma newTable_inv log : 0 <= log <= maxLog -> TInv (newTable log).
+  Proof.
+    intros Hl.
+    assert (G : forall i, getb (newTable log) i = emptyB).
+    { intros i. unfold HashModel.getb, HashModel.newTable. simpl. apply nth_repeat. }
+    constructor.
+    - exact Hl.
+    - unfold HashModel.newTable, HashModel.bcount. simpl. apply repeat_length.
+    - intros i Hi. rewrite G. unfold HashModel.blen, HashModel.isFull, HashModel.blen. simpl.
+      split; [lia|]. split; auto. intros Hf. apply Z.leb_le in Hf. lia.
+    - intros i k v Hi Hin. rewrite G in Hin. simpl in Hin. contradiction.
+  Qed.
+
+  Lemma clearT_eq t : TInv t -> clearT B b0 wf0 t = newTable (tlog t).
+  Proof.
+    intros I. unfold HashModel.clearT, HashModel.newTable. f_equal.
+    pose proof (ti_len _ I) as L. unfold HashModel.bcount in L. rewrite <- L. clear L.
+    induction (tbs t); simpl; auto. f_equal. auto.
+  Qed.
+
+  (* ================= the container: generations ================= *)
+  Definition gall (gs : list table) : list item := flat_map tall gs.
+  Definition hall (s : hset) : list item := gall (gens s).
+
+  Record Inv (s : hset) : Prop := {
+    inv_t : Forall TInv (gens s);
+    inv_nd : NoDup (map fst (hall s));
+    inv_count : count s = Z.of_nat (length (hall s));
+    inv_cap : gens s = [] -> capacity s = 0
+  }.
+
+  Lemma hinit_inv : Inv (hinit B).
+  Proof. constructor; simpl; auto. constructor. Qed.
+
+  Lemma gall_cons t r : gall (t :: r) = tall t ++ gall r.
+  Proof. reflexivity. Qed.
+
+  Lemma gfind_sound gs k : Forall TInv gs -> forall gi0 gi idx pos v, gfind gs k gi0 = Some (gi, idx, pos, v) ->
+    exists j t, gi = (gi0 + j)%nat /\ nth_error gs j = Some t /\ 0 <= idx < bcount t /\
+                nth_error (items (getb t idx)) pos = Some (k, v).
+  Proof.
+    induction 1 as [|t r It Ir IH]; simpl; intros gi0 gi idx pos v H; [discriminate|].
+    destruct (tfind t k) as [[[idx' pos'] v']|] eqn:E.
+    - inversion H; subst. apply tfind_sound in E; [|apply It]. exists 0%nat, t. split; [lia|]. split; auto.
+    - destruct (IH _ _ _ _ _ H) as [j [t' [E1 [E2 E3]]]]. exists (S j), t'. split; [lia|]. split; auto.
+  Qed.
+
+  Lemma gfind_in gs k gi0 gi idx pos v : Forall TInv gs -> gfind gs k gi0 = Some (gi, idx, pos, v) -> In (k, v) (gall gs).
+  Proof.
+    intros F H. destruct (gfind_sound gs k F _ _ _ _ _ H) as [j [t [E1 [E2 [E3 E4]]]]].
+    unfold gall. apply in_flat_map. exists t. split; [eapply nth_error_In; eauto|].
+    apply in_tall; [|eexists; split; [exact E3|eapply nth_error_In; eauto]].
+    rewrite Forall_forall in F. apply F. eapply nth_error_In; eauto.
+  Qed.
+
+  Lemma gfind_complete gs k v : Forall TInv gs -> NoDup (map fst (gall gs)) -> In (k, v) (gall gs) ->
+    forall gi0, exists gi idx pos, gfind gs k gi0 = Some (gi, idx, pos, v).
+  Proof.
+    induction 1 as [|t r It Ir IH]; simpl; intros ND Hin gi0; [contradiction|].
+    rewrite map_app in ND. destruct (NoDup_app_inv _ _ ND) as [N1 [N2 N3]].
+    destruct (tfind t k) as [[[idx' pos'] v']|] eqn:E.
+    - exists gi0, idx', pos'. repeat f_equal.
+      pose proof (tfind_in _ _ _ _ _ It E) as Hin'.
+      eapply (NoDup_keys_val (tall t ++ gall r)); [rewrite map_app; exact ND| |exact Hin].
+      apply in_or_app; auto.
+    - pose proof (tfind_none _ _ It N1 E) as Hno.
+      apply in_app_or in Hin. destruct Hin as [Hin|Hin].
+      + exfalso. apply Hno. apply in_keys. eauto.
+      + apply IH; auto.
+  Qed.
+
+  Lemma gfind_none gs k gi0 : Forall TInv gs -> NoDup (map fst (gall gs)) -> gfind gs k gi0 = None -> ~ In k (map fst (gall gs)).
+  Proof.
+    intros F ND H Hin. apply in_keys in Hin. destruct Hin as [v Hin].
+    destruct (gfind_complete gs k v F ND Hin gi0) as [gi [idx [pos E]]]. congruence.
+  Qed.
+
+  Lemma hall_count0 s : Inv s -> count s = 0 -> hall s = [].
+  Proof. intros I H. rewrite (inv_count _ I) in H. destruct (hall s); simpl in *; auto; lia. Qed.
+
+  Lemma hfind_sound s k gi idx pos v : Inv s -> hfind s k = Some (gi, idx, pos, v) ->
+    exists t, nth_error (gens s) gi = Some t /\ 0 <= idx < bcount t /\ nth_error (items (getb t idx)) pos = Some (k, v).
+  Proof.
+    intros I. unfold HashModel.hfind. destruct (count s =? 0); [discriminate|]. intros H.
+    destruct (gfind_sound _ _ (inv_t _ I) _ _ _ _ _ H) as [j [t [E1 E2]]]. simpl in E1. subst. eauto.
+  Qed.
+
+  Lemma hfind_in s k gi idx pos v : Inv s -> hfind s k = Some (gi, idx, pos, v) -> In (k, v) (hall s).
+  Proof.
+    intros I. unfold HashModel.hfind. destruct (count s =? 0); [discriminate|]. intros H.
+    eapply gfind_in; eauto. apply I.
+  Qed.
+
+  Lemma hfind_complete s k v : Inv s -> In (k, v) (hall s) -> exists gi idx pos, hfind s k = Some (gi, idx, pos, v).
+  Proof.
+    intros I Hin. unfold HashModel.hfind. destruct (Z.eqb_spec (count s) 0) as [E|E].
+    - rewrite (hall_count0 s I E) in Hin. contradiction.
+    - apply gfind_complete; auto; apply I.
+  Qed.
+
+  Lemma hfind_none s k : Inv s -> hfind s k = None -> ~ In k (map fst (hall s)).
+  Proof.
+    intros I H Hin. apply in_keys in Hin. destruct Hin as [v Hin].
+    destruct (hfind_complete s k v I Hin) as [gi [idx [pos E]]]. congruence.
+  Qed.
+
+  (* replacing one generation by a shrunk version *)
+  Lemma upd_gen_spec gs gi t (f : table -> table) extra :
+    Forall TInv gs -> nth_error gs gi = Some t -> shrinks t (f t) -> Permutation (extra ++ tall (f t)) (tall t) ->
+    Forall TInv (upd_gen B gs gi f) /\ Permutation (extra ++ gall (upd_gen B gs gi f)) (gall gs) /\
+    (gs <> [] -> upd_gen B gs gi f <> []).
+  Proof.
+    intros F Hn Hs HP. unfold HashModel.upd_gen. rewrite Hn.
+    destruct (nth_error_nth' _ t _ _ Hn) as [E Hlt].
+    split; [|split].
+    - rewrite Forall_forall in *. intros x Hx.
+      destruct (In_nth _ _ t Hx) as [n [Hl En]]. rewrite upd_nth_length in Hl.
+      destruct (Nat.eq_dec gi n).
+      + subst n. rewrite nth_upd_nth_same in En by auto. subst x. eapply shrink_inv; eauto. apply F. eapply nth_error_In; eauto.
+      + rewrite nth_upd_nth_other in En by auto. subst x. apply F. apply nth_In; auto.
+    - unfold gall. apply (flat_map_upd_nth_perm' tall _ _ t); auto. rewrite E. exact HP.
+    - intros _ Hnil. apply (f_equal (@length _)) in Hnil. rewrite upd_nth_length in Hnil. simpl in Hnil. lia.
+  Qed.
+
+  (* ================= relocation (pvRelocateItems) ================= *)
+  Definition K (l : list item) : list Z := map fst l.
+
+  Lemma reloc_items_spec : forall its nw bud rem nw' bud' ok,
+    TInv nw -> NoDup (K (its ++ tall nw)) -> reloc_items its nw bud = (rem, nw', bud', ok) ->
+    TInv nw' /\ tlog nw' = tlog nw /\ Permutation (rem ++ tall nw') (its ++ tall nw) /\
+    (exists moved, its = moved ++ rem) /\ (ok = true -> rem = []).
+  Proof.
+    induction its as [|kv rest IH]; intros nw bud rem nw' bud' ok I ND H; simpl in H.
+    - inversion H; subst. csplit; auto. exists []; reflexivity.
+    - destruct (bud_zero bud).
+      + inversion H; subst. csplit; auto. exists []; reflexivity. discriminate.
+      + destruct (tadd nw kv) as [nw1|] eqn:E.
+        * assert (Hnew : ~ In (fst kv) (map fst (tall nw))).
+          { unfold K in ND. simpl in ND. inversion ND as [|? ? Hn _]; subst. intro Hin. apply Hn. rewrite map_app. apply in_or_app; auto. }
+          destruct (tadd_inv nw kv nw1 I Hnew E) as [I1 [L1 P1]].
+          assert (ND1 : NoDup (K (rest ++ tall nw1))).
+          { eapply NoDup_keys_perm; [|exact ND]. simpl. rewrite P1. apply Permutation_middle. }
+          destruct (IH _ _ _ _ _ _ I1 ND1 H) as [I2 [L2 [P2 [[moved M] O]]]].
+          split; auto. split; [congruence|]. split.
+          { rewrite P2, P1. simpl. apply Permutation_sym, Permutation_middle. }
+          split; auto. exists (kv :: moved). simpl. congruence.
+        * inversion H; subst. csplit; auto. exists []; reflexivity. discriminate.
+  Qed.
+
+  Definition ball (bs : list bucket) : list item := flat_map (@items B) bs.
+  Definition bshr (b b' : bucket) : Prop :=
+    incl (map fst (items b')) (map fst (items b)) /\ (length (items b') <= length (items b))%nat /\
+    wasFull b' = wasFull b /\ bound b' = bound b.
+
+  Lemma bshr_refl b : bshr b b.
+  Proof. unfold bshr. csplit; auto. apply incl_refl. Qed.
+
+  Lemma Forall2_bshr_refl bs : Forall2 bshr bs bs.
+  Proof. induction bs; constructor; auto. apply bshr_refl. Qed.
+
+  Lemma reloc_buckets_spec : forall bs nw bud bs' nw' bud' ok,
+    TInv nw -> NoDup (K (ball bs ++ tall nw)) -> reloc_buckets bs nw bud = (bs', nw', bud', ok) ->
+    TInv nw' /\ tlog nw' = tlog nw /\ Permutation (ball bs' ++ tall nw') (ball bs ++ tall nw) /\
+    Forall2 bshr bs bs' /\ (ok = true -> ball bs' = []).
+  Proof.
+    induction bs as [|b rest IH]; intros nw bud bs' nw' bud' ok I ND H; simpl in H.
+    - inversion H; subst. csplit; auto.
+    - destruct (reloc_items (rev (items b)) nw bud) as [[[rem nw1] bud1] ok1] eqn:E1.
+      assert (ND0 : NoDup (K (rev (items b) ++ tall nw))).
+      { simpl in ND. unfold K in *. rewrite <- app_assoc in ND. rewrite !map_app in ND. apply NoDup_app_drop_mid in ND.
+        rewrite <- map_app in ND. eapply NoDup_keys_perm; [|exact ND]. apply Permutation_app_tail. apply Permutation_rev. }
+      destruct (reloc_items_spec _ _ _ _ _ _ _ I ND0 E1) as [I1 [L1 [P1 [[moved M] O1]]]].
+      assert (Hb : bshr b (mkB (rev rem) (wasFull b) (bound b))).
+      { assert (Ei : items b = rev rem ++ rev moved).
+        { rewrite <- (rev_involutive (items b)). rewrite M. apply rev_app_distr. }
+        split; [|split; [|split]]; simpl; auto.
+        - rewrite Ei, map_app. apply incl_appl, incl_refl.
+        - rewrite Ei, app_length. lia. }
+      assert (PW : Permutation (rev rem ++ ball rest ++ tall nw1) (ball (b :: rest) ++ tall nw)).
+      { simpl. rewrite <- app_assoc.
+        apply Permutation_trans with (ball rest ++ rem ++ tall nw1).
+        - rewrite app_assoc. rewrite (Permutation_app_comm (rev rem)). rewrite <- app_assoc.
+          apply Permutation_app_head. apply Permutation_app_tail. apply Permutation_sym, Permutation_rev.
+        - rewrite P1. rewrite app_assoc. rewrite (Permutation_app_comm (ball rest)). rewrite <- app_assoc.
+          apply Permutation_app_tail. apply Permutation_sym, Permutation_rev. }
+      destruct ok1.
+      + destruct (reloc_buckets rest nw1 bud1) as [[[rest' nw2] bud2] ok2] eqn:E2.
+        inversion H; subst; clear H.
+        assert (ND1 : NoDup (K (ball rest ++ tall nw1))).
+        { assert (NDW : NoDup (K (rev rem ++ ball rest ++ tall nw1))) by (eapply NoDup_keys_perm; [apply Permutation_sym; exact PW|exact ND]).
+          unfold K in *. rewrite map_app in NDW. apply NoDup_app_tail in NDW. exact NDW. }
+        destruct (IH _ _ _ _ _ _ I1 ND1 E2) as [I2 [L2 [P2 [F2 O2]]]].
+        split; auto. split; [congruence|]. split; [|split].
+        * simpl. rewrite <- app_assoc. rewrite P2. exact PW.
+        * constructor; auto.
+        * intros Hok. simpl. rewrite (O1 eq_refl). simpl. auto.
+      + inversion H; subst; clear H. split; auto. split; auto. split; [|split].
+        * simpl. rewrite <- app_assoc. exact PW.
+        * constructor; auto. apply Forall2_bshr_refl.
+        * discriminate.
+  Qed.
+
+  Lemma bshr_shrinks t bs' : TInv t -> Forall2 bshr (tbs t) bs' -> shrinks t (mkT (tlog t) bs').
+  Proof.
+    intros I F. destruct (Forall2_nth _ _ _ F) as [El Fn].
+    split; [reflexivity|]. split; [simpl; auto|].
+    intros j Hj. unfold HashModel.getb. simpl.
+    apply (Fn (Z.to_nat j) emptyB emptyB). apply idx_nat; auto.
+  Qed.
+
+  Lemma reloc_gens_spec : forall olds nw bud olds' nw' bud' ok,
+    Forall TInv olds -> TInv nw -> NoDup (K (gall olds ++ tall nw)) -> reloc_gens olds nw bud = (olds', nw', bud', ok) ->
+    Forall TInv olds' /\ TInv nw' /\ tlog nw' = tlog nw /\ Permutation (gall olds' ++ tall nw') (gall olds ++ tall nw).
+  Proof.
+    induction olds as [|g older IH]; intros nw bud olds' nw' bud' ok F I ND H; simpl in H.
+    - inversion H; subst. csplit; auto.
+    - inversion F as [|? ? Ig Fo]; subst.
+      destruct (reloc_gens older nw bud) as [[[older' nw1] bud1] ok1] eqn:E1.
+      assert (ND0 : NoDup (K (gall older ++ tall nw))).
+      { simpl in ND. unfold K in *. rewrite <- app_assoc, map_app in ND. apply NoDup_app_tail in ND. exact ND. }
+      destruct (IH _ _ _ _ _ _ Fo I ND0 E1) as [F1 [I1 [L1 P1]]].
+      destruct ok1.
+      + destruct (reloc_buckets (tbs g) nw1 bud1) as [[[bs' nw2] bud2] ok2] eqn:E2.
+        assert (Eo : older' = []).
+        { clear - E1. revert nw bud older' nw1 bud1 E1. induction older as [|g' o IHo]; intros nw bud older' nw1 bud1 E1; simpl in E1.
+          - inversion E1; auto.
+          - destruct (reloc_gens o nw bud) as [[[o' n1] b1] k1] eqn:E. destruct k1; [|inversion E1].
+            destruct (reloc_buckets (tbs g') n1 b1) as [[[bs' n2] b2] k2]. destruct k2; inversion E1; auto. }
+        subst older'. simpl in P1.
+        assert (ND1 : NoDup (K (ball (tbs g) ++ tall nw1))).
+        { eapply NoDup_keys_perm; [|exact ND]. simpl. rewrite <- app_assoc. apply Permutation_app_head. apply Permutation_sym. exact P1. }
+        destruct (reloc_buckets_spec _ _ _ _ _ _ _ I1 ND1 E2) as [I2 [L2 [P2 [F2 O2]]]].
+        assert (PW : Permutation (ball bs' ++ tall nw2) (gall (g :: older) ++ tall nw)).
+        { rewrite P2. simpl. rewrite <- app_assoc. apply Permutation_app_head. exact P1. }
+        destruct ok2; inversion H; subst; clear H.
+        * split; [constructor|]. split; auto. split; [congruence|]. rewrite (O2 eq_refl) in PW. exact PW.
+        * split; [constructor; [|constructor]; eapply shrink_inv; [exact Ig|apply bshr_shrinks; auto]|].
+          split; auto. split; [congruence|]. simpl. rewrite app_nil_r. exact PW.
+      + inversion H; subst; clear H. split; [constructor; auto|]. split; auto. split; auto.
+        simpl. rewrite <- !app_assoc. apply Permutation_app_head. exact P1.
+  Qed.
+
+  Lemma relocate_spec gs bud : Forall TInv gs -> NoDup (K (gall gs)) ->
+    Forall TInv (relocate gs bud) /\ Permutation (gall (relocate gs bud)) (gall gs) /\ (gs <> [] -> relocate gs bud <> []).
+  Proof.
+    intros F ND. destruct gs as [|nw olds]; [simpl; auto|]. destruct olds as [|g olds]; [simpl; csplit; auto; discriminate|].
+    unfold HashModel.relocate.
+    destruct (reloc_gens (g :: olds) nw bud) as [[[olds' nw'] bud'] ok] eqn:E.
+    inversion F as [|? ? I Fo]; subst.
+    assert (ND0 : NoDup (K (gall (g :: olds) ++ tall nw))).
+    { eapply NoDup_keys_perm; [|exact ND]. rewrite gall_cons. apply Permutation_app_comm. }
+    destruct (reloc_gens_spec _ _ _ _ _ _ _ Fo I ND0 E) as [F1 [I1 [L1 P1]]].
+    split; [constructor; auto|]. split; [|discriminate].
+    rewrite gall_cons. rewrite (gall_cons nw). rewrite Permutation_app_comm. rewrite P1. apply Permutation_app_comm.
+  Qed.
+
+  (* ================= the operations preserve Inv and refine the finite map ================= *)
+  Opaque HashModel.relocate.
+
+  Lemma inv_relocated gs bud c cp l : Forall TInv gs -> gs <> [] -> Permutation (gall gs) l -> NoDup (K l) ->
+    c = Z.of_nat (length l) ->
+    Inv (mkH (relocate gs bud) c cp) /\ Permutation (hall (mkH (relocate gs bud) c cp)) l.
+  Proof.
+    intros F Hne P ND Hc.
+    assert (NDg : NoDup (K (gall gs))) by (eapply NoDup_keys_perm; [apply Permutation_sym; exact P|exact ND]).
+    destruct (relocate_spec gs bud F NDg) as [F' [P' Hne']].
+    assert (PP : Permutation (gall (relocate gs bud)) l) by (rewrite P'; exact P).
+    split; [|exact PP]. constructor; simpl.
+    - exact F'.
+    - eapply NoDup_keys_perm; [apply Permutation_sym; exact PP|exact ND].
+    - unfold hall. simpl. rewrite (Permutation_length PP). exact Hc.
+    - intros E. exfalso. apply Hne'; auto.
+  Qed.
+
+  Lemma newLog_nonneg gs : Forall TInv gs -> 0 <= newLog gs.
+  Proof.
+    intros F. destruct gs as [|t r]; simpl; auto. inversion F; subst.
+    pose proof (ti_log _ H1). pose proof (shift_nonneg (bcount t)). lia.
+  Qed.
+
+  Lemma hadd_spec s k v bud s' : Inv s -> ~ In k (K (hall s)) -> hadd s (k, v) bud = Some s' ->
+    Inv s' /\ Permutation (hall s') ((k, v) :: hall s).
+  Proof.
+    intros I Hnew. unfold HashModel.hadd.
+    assert (NDl : NoDup (K ((k, v) :: hall s))) by (simpl; constructor; [exact Hnew|apply I]).
+    assert (Hc : count s + 1 = Z.of_nat (length ((k, v) :: hall s))) by (pose proof (inv_count _ I) as HC; change (length ((k, v) :: hall s)) with (S (length (hall s))); lia).
+    destruct (count s <? capacity s).
+    - destruct (gens s) as [|t r] eqn:Eg; [discriminate|].
+      destruct (tadd t (k, v)) as [t'|] eqn:E; [|discriminate]. intros H; injection H as H; subst s'.
+      pose proof (inv_t _ I) as F. rewrite Eg in F. inversion F as [|? ? It Fr]; subst.
+      assert (Hnt : ~ In (fst (k, v)) (map fst (tall t))).
+      { intro Hin. apply Hnew. unfold hall, K. rewrite Eg, gall_cons, map_app. apply in_or_app; auto. }
+      destruct (tadd_inv t (k, v) t' It Hnt E) as [It' [L P]].
+      apply inv_relocated; auto; [discriminate|].
+      unfold hall. rewrite Eg, !gall_cons. rewrite P. reflexivity.
+    - destruct ((calcCapacity (2 ^ newLog (gens s)) <=? count s) || (maxLog <? newLog (gens s))) eqn:Ck; [discriminate|].
+      apply orb_false_iff in Ck. destruct Ck as [_ Ck]. apply Z.ltb_ge in Ck.
+      pose proof (newLog_nonneg _ (inv_t _ I)) as Hn0.
+      destruct (tadd (newTable (newLog (gens s))) (k, v)) as [t'|] eqn:E; [|discriminate].
+      intros H; injection H as H; subst s'.
+      assert (It0 : TInv (newTable (newLog (gens s)))) by (apply newTable_inv; lia).
+      assert (Hnt : ~ In (fst (k, v)) (map fst (tall (newTable (newLog (gens s)))))) by (rewrite tall_newTable; simpl; tauto).
+      destruct (tadd_inv _ (k, v) t' It0 Hnt E) as [It' [L P]]. rewrite tall_newTable in P.
+      apply inv_relocated; auto; [constructor; [exact It'|apply I]|discriminate|].
+      rewrite gall_cons. rewrite P. reflexivity.
+  Qed.
+
+  Lemma hreserve_spec s n bud s' : Inv s -> hreserve s n bud = Some s' -> Inv s' /\ Permutation (hall s') (hall s).
+  Proof.
+    intros I. unfold HashModel.hreserve. destruct (n <=? capacity s).
+    - intros H; inversion H; subst. split; auto.
+    - destruct (reserve_log calcCapacity 64 (newLog (gens s)) n) as [nl|] eqn:E; [|discriminate].
+      destruct (maxLog <? nl) eqn:Ck; [discriminate|]. apply Z.ltb_ge in Ck.
+      intros H; injection H as H; subst s'.
+      assert (Hn0 : 0 <= nl).
+      { pose proof (newLog_nonneg _ (inv_t _ I)) as Hn0. revert E Hn0. generalize (newLog (gens s)). generalize 64%nat.
+        induction n0; simpl; intros z E Hz.
+        - destruct (n <=? calcCapacity (2 ^ z)); inversion E; subst; auto.
+        - destruct (n <=? calcCapacity (2 ^ z)); [inversion E; subst; auto|]. apply (IHn0 _ E). lia. }
+      apply inv_relocated.
+      + constructor; [apply newTable_inv; lia|apply I].
+      + discriminate.
+      + rewrite gall_cons, tall_newTable. reflexivity.
+      + apply I.
+      + apply I.
+  Qed.
+
+  Lemma traverse_perm s : Permutation (traverse B s) (hall s).
+  Proof.
+    unfold HashModel.traverse, hall, gall. apply flat_map_perm_pointwise. intros t.
+    unfold HashModel.ttraverse, tall. apply flat_map_rev_perm.
+  Qed.
+
+  Lemma add_all_spec : forall its t t', TInv t -> NoDup (K (its ++ tall t)) -> add_all its t = Some t' ->
+    TInv t' /\ Permutation (tall t') (its ++ tall t).
+  Proof.
+    induction its as [|kv rest IH]; intros t t' I ND H; simpl in H.
+    - inversion H; subst. split; auto.
+    - destruct (tadd t kv) as [t1|] eqn:E; [|discriminate].
+      assert (Hnew : ~ In (fst kv) (map fst (tall t))).
+      { unfold K in ND. simpl in ND. inversion ND as [|? ? Hn _]; subst. intro Hin. apply Hn. rewrite map_app. apply in_or_app; auto. }
+      destruct (tadd_inv t kv t1 I Hnew E) as [I1 [L1 P1]].
+      assert (ND1 : NoDup (K (rest ++ tall t1))).
+      { eapply NoDup_keys_perm; [|exact ND]. simpl. rewrite P1. apply Permutation_middle. }
+      destruct (IH _ _ I1 ND1 H) as [I2 P2]. split; auto.
+      rewrite P2, P1. simpl. apply Permutation_sym, Permutation_middle.
+  Qed.
+
+  Lemma hcopy_spec s s' : Inv s -> hcopy s = Some s' -> Inv s' /\ Permutation (hall s') (hall s).
+  Proof.
+    intros I. unfold HashModel.hcopy. destruct (Z.eqb_spec (count s) 0) as [E0|E0].
+    - intros H; inversion H; subst. split; [apply hinit_inv|]. rewrite (hall_count0 s I E0). reflexivity.
+    - destruct (copy_log calcCapacity 64 logStart (count s)) as [l|] eqn:E; [|discriminate].
+      destruct (maxLog <? l) eqn:Ck; [discriminate|]. apply Z.ltb_ge in Ck.
+      destruct (add_all (traverse B s) (newTable l)) as [t|] eqn:Ea; [|discriminate].
+      intros H; injection H as H; subst s'.
+      assert (Hl0 : 0 <= l).
+      { revert E logStart_nonneg. generalize logStart. generalize 64%nat.
+        induction n; simpl; intros z E Hz.
+        - destruct (count s <=? calcCapacity (2 ^ z)); inversion E; subst; auto.
+        - destruct (count s <=? calcCapacity (2 ^ z)); [inversion E; subst; auto|]. apply (IHn _ E). lia. }
+      assert (It0 : TInv (newTable l)) by (apply newTable_inv; lia).
+      assert (ND : NoDup (K (traverse B s ++ tall (newTable l)))).
+      { rewrite tall_newTable, app_nil_r. eapply NoDup_keys_perm; [apply Permutation_sym, traverse_perm|apply I]. }
+      destruct (add_all_spec _ _ _ It0 ND Ea) as [It P]. rewrite tall_newTable, app_nil_r in P.
+      assert (PP : Permutation (hall (mkH [t] (count s) (calcCapacity (2 ^ l)))) (hall s)).
+      { unfold hall at 1. simpl. rewrite app_nil_r. rewrite P. apply traverse_perm. }
+      split; [|exact PP]. constructor; simpl.
+      + constructor; auto.
+      + eapply NoDup_keys_perm; [apply Permutation_sym; exact PP|apply I].
+      + rewrite (Permutation_length PP). apply I.
+      + discriminate.
+  Qed.
+
+  Lemma hclear_spec s shrink : Inv s -> Inv (hclear s shrink) /\ hall (hclear s shrink) = [].
+  Proof.
+    intros I. unfold HashModel.hclear. destruct (gens s) as [|t r] eqn:Eg.
+    - split; auto. unfold hall. rewrite Eg. reflexivity.
+    - destruct shrink.
+      + split; [apply hinit_inv|reflexivity].
+      + pose proof (inv_t _ I) as F. rewrite Eg in F. inversion F as [|? ? It _]; subst.
+        rewrite (clearT_eq t It).
+        assert (E : hall (mkH [newTable (tlog t)] 0 (capacity s)) = []).
+        { unfold hall. simpl. rewrite tall_newTable. reflexivity. }
+        split; auto. constructor; simpl.
+        * constructor; auto. apply newTable_inv. apply It.
+        * rewrite E. constructor.
+        * rewrite E. reflexivity.
+        * discriminate.
+  Qed.
+
+  Lemma upd_gen_inv s gi t f extra cnt :
+    Inv s -> nth_error (gens s) gi = Some t -> shrinks t (f t) -> Permutation (extra ++ tall (f t)) (tall t) ->
+    cnt = count s - Z.of_nat (length extra) ->
+    Inv (mkH (upd_gen B (gens s) gi f) cnt (capacity s)) /\
+    Permutation (extra ++ hall (mkH (upd_gen B (gens s) gi f) cnt (capacity s))) (hall s).
+  Proof.
+    intros I Hn Hs HP Hc. destruct (upd_gen_spec _ _ _ f extra (inv_t _ I) Hn Hs HP) as [F [P Hne]].
+    split; [|exact P]. constructor; simpl.
+    - exact F.
+    - pose proof (inv_nd _ I) as ND. eapply NoDup_keys_perm in ND; [|apply Permutation_sym; exact P].
+      unfold hall. simpl. rewrite map_app in ND. eapply NoDup_app_tail; eauto.
+    - unfold hall. simpl. apply Permutation_length in P. rewrite app_length in P. fold (hall s) in P.
+      rewrite (inv_count _ I) in Hc. lia.
+    - intros E. exfalso. apply Hne; auto. intro E'. rewrite E' in Hn. destruct gi; discriminate.
+  Qed.
+
+End TableProofs.
